@@ -257,11 +257,23 @@ def run_unit(unit) -> UnitResult:
                     # programs exist before the loop: inside it only Individual objects are allocated and (in ephemeral
                     # histories) freed, so a new individual readily takes the address of the one that just died
                     progs = [Prog(i, TEXTS[unit["text"]](i)) for i in range(len(seq))]
+                    dead_ids: set = set()
                     for e, (what, i) in enumerate(events):
                         f = seq[i]
                         if what == "new":
                             table[i] = f
                             inds_by_i[i] = Individual(progs[i], rep)
+                            if unit.get("ephemeral") and dead_ids:
+                                # make the new individual take the address of a registered one that has died since (whether
+                                # the allocator hands a freed block out again at once depends on the interpreter's state:
+                                # keep the candidates that got another address alive and ask again)
+                                spare = []
+                                while id(inds_by_i[i]) not in dead_ids and len(spare) < 400:
+                                    spare.append(inds_by_i[i])
+                                    inds_by_i[i] = Individual(progs[i], rep)
+                                if id(inds_by_i[i]) in dead_ids:
+                                    r.count("individuals_created_at_the_address_of_a_dead_one")
+                                del spare
                         ind = inds_by_i[i]
                         tracker.evaluate([ind])
                         r.executions += 1
@@ -283,6 +295,7 @@ def run_unit(unit) -> UnitResult:
                             # nobody but the tracker keeps a registered individual: its address can be taken by the next one
                             flags.flags.clear()
                             inds_by_i.pop(i, None)
+                            dead_ids.add(id(ind))  # (the tracker may still hold it as its best: then the address stays taken)
                             ind = None
                         boundaries.append(len(dev.writes))
                         content = (real_open(path, "rb").read() if conformance else dev.content())
